@@ -619,6 +619,9 @@ impl GTree {
             l.iter_mut().for_each(|e| e.retag(next));
         }
     }
+    fn imports_nothing(&self) -> bool {
+        matches!(&self.end, GEnd::List(l) if l.iter().all(|e| e.imports_nothing()))
+    }
     fn has_comment(&self) -> bool {
         self.comment.is_some() || matches!(&self.end, GEnd::List(l) if l.iter().any(|e| e.has_comment()))
     }
@@ -750,8 +753,6 @@ fn gen_list(rng: &mut Rng, depth: usize, g: &GenOpts) -> Vec<GTree> {
         8..=10 => 3,
         _ => 4,
     };
-    // nested empty lists are a known-dirty shape (probe C10-empty-nested): top level only
-    let n = if n == 0 && depth > 0 { 2 } else { n };
     let mut l: Vec<GTree> = (0..n)
         .map(|_| match rng.below(14) {
             0 => GTree { global: false, path: vec!["self".into()], end: GEnd::Plain(if rng.chance(1, 3) { Some(rng.pick(ALIASES).to_string()) } else { None }), comment: None },
@@ -761,7 +762,13 @@ fn gen_list(rng: &mut Rng, depth: usize, g: &GenOpts) -> Vec<GTree> {
         .collect();
     if g.comments && n >= 2 && rng.chance(1, 6) {
         let k = rng.below(n);
-        l[k].comment = Some((rng.below(3) as u8, format!("n{}", rng.below(1000))));
+        // (an element that imports nothing is kept by normalize when it carries a comment; the
+        // model does not locate nested comments: such an element gets none)
+        // and the list keeps at least two elements when the empty ones are removed: a sole element
+        // with a comment is not spliced, which the model cannot know)
+        if !l[k].imports_nothing() && l.iter().filter(|e| !e.imports_nothing()).count() >= 2 {
+            l[k].comment = Some((rng.below(3) as u8, format!("n{}", rng.below(1000))));
+        }
     }
     l
 }
@@ -1925,8 +1932,8 @@ const PROBES: &[Probe] = &[
     Probe { id: "C10-item-attrs", src: "#[cfg(unix)]\nuse f::B;\n#[cfg(windows)]\nuse f::B;\n", cfg: &[("imports_granularity", "Item")], must_keep: None, what: "imports_granularity=Item: `#[cfg(unix)] use f::B; #[cfg(windows)] use f::B;` lost the second declaration: unique() compared paths only (repaired in /repo; theorem granularity_item_leaves)" },
     Probe { id: "C10-item-vis", src: "pub use p::q;\nuse p::q;\n", cfg: &[("imports_granularity", "Item")], must_keep: None, what: "imports_granularity=Item: `pub use p::q; use p::q;` lost the private import: unique() compared paths only (repaired in /repo)" },
     Probe { id: "C10-item-dup-comment", src: "use b::c;\nuse b::c; // why\nuse d;\n", cfg: &[("imports_granularity", "Item")], must_keep: Some("why"), what: "imports_granularity=Item: a duplicate import that carries a comment was removed together with its comment: unique() compared paths only (repaired in /repo)" },
-    Probe { id: "C10-empty-nested-item", src: "use a::{b::{}, c};\n", cfg: &[("imports_granularity", "Item")], must_keep: None, what: "imports_granularity=Item: `use a::{b::{}, c};` becomes `use a; use a::c;`: an import of `a` nobody wrote (normalize leaves a nested tree with an empty path, flatten turns it into the prefix; proved: flatten_empty_nested_counterexample)" },
-    Probe { id: "C10-empty-nested-crate", src: "use a::{b::{}, c};\nuse a::d;\n", cfg: &[("imports_granularity", "Crate")], must_keep: None, what: "imports_granularity=Crate: `use a::{b::{}, c}; use a::d;` becomes `use a::{self, c, d};`: an import of `a` nobody wrote" },
+    Probe { id: "C10-empty-nested-item", src: "use a::{b::{}, c};\n", cfg: &[("imports_granularity", "Item")], must_keep: None, what: "imports_granularity=Item: `use a::{b::{}, c};` became `use a; use a::c;`: an import of `a` nobody wrote (normalize left a nested tree with an empty path, flatten turned it into the prefix; repaired in /repo, theorem normalize_wf)" },
+    Probe { id: "C10-empty-nested-crate", src: "use a::{b::{}, c};\nuse a::d;\n", cfg: &[("imports_granularity", "Crate")], must_keep: None, what: "imports_granularity=Crate: `use a::{b::{}, c}; use a::d;` became `use a::{self, c, d};`: an import of `a` nobody wrote (repaired in /repo)" },
     Probe { id: "C10-bare-self", src: "use self;\nuse a;\n", cfg: &[], must_keep: None, what: "`use self;` (accepted by the parser, rejected by rustc) is deleted by normalize (proved: normalize_bare_self_counterexample)" },
     Probe { id: "C10-cmt-first", src: "use a::b;\n// about c\nuse a::c;\nuse a::d;\n", cfg: &[("imports_granularity", "Crate")], must_keep: None, what: "group_imports=Preserve: a comment line above a declaration ends the run, so the comment lies outside the span of the next run and is not attached: `// about c / use a::c; / use a::d;` is merged into `// about c / use a::{c, d};` across the comment" },
     Probe { id: "C10-cmt-last", src: "use a::b;\nuse a::c; // about c\n", cfg: &[("imports_granularity", "Crate")], must_keep: None, what: "a trailing comment on the last declaration of a run lies outside the span of the run and is not attached: `use a::b; / use a::c; // about c` is merged into `use a::{b, c}; // about c`" },
